@@ -211,7 +211,7 @@ class TORPEXMagneticField(Equilibrium):
             j_axis = numpy.searchsorted(Z, Z_axis)
 
             # Approximate value of psi at the magnetic axis from the psi array
-            grid_psi_axis = psirz[j_axis, i_axis]
+            grid_psi_axis = psirz[i_axis, j_axis]
             if numpy.abs(psi_axis) > 1.0e-10:
                 if numpy.abs(psi_axis + grid_psi_axis) / numpy.abs(psi_axis) < 1.0e-2:
                     # In some EFIT files, psirz might be defined with the 'wrong' sign,
@@ -232,7 +232,7 @@ class TORPEXMagneticField(Equilibrium):
                 if numpy.abs(grid_psi_axis) < 1.0e-10:
                     # [i_axis, j_axis] must have been right on the magnetic axis, so go
                     # one point away to get a non-zero value
-                    test_psi = psirz[j_axis + 1, i_axis + 1]
+                    test_psi = psirz[i_axis + 1, j_axis + 1]
                 else:
                     test_psi = grid_psi_axis
 
